@@ -275,6 +275,23 @@ def r11_6(ctx: Ctx, rule="R11.6"):
         oksig = phas(add.node, "%s = self.system_gro.molecules_resname_len_index" % table) or table == "self.system_gro.molecules_resname_len_index"
         lp_ = [a_ for a_ in walk_no_nested(add.node) if isinstance(a_, ast.For) and any(x is sig[0] for x in ast.walk(a_))]
         oksig = oksig and bool(lp_) and norm(lp_[0].iter) == "%s.resname_len_list" % top_p and norm(sig[0].test.left) == norm(lp_[0].target)
+    if not sig:
+        # the same check as one expression: `if any(x not in table for x in top.resname_len_list): raise`
+        from ..pat import single_defs as _sd
+        sd_ = _sd(add.node)
+        for n_ in walk_no_nested(add.node):
+            if isinstance(n_, ast.If) and branch_raises(n_.body) and isinstance(n_.test, ast.Call) and call_name(n_.test) == "any" \
+                    and len(n_.test.args) == 1 and isinstance(n_.test.args[0], (ast.GeneratorExp, ast.ListComp)):
+                g_ = n_.test.args[0]
+                it_ = g_.generators[0].iter
+                it_ = sd_.get(it_.id, it_) if isinstance(it_, ast.Name) else it_
+                e_ = g_.elt
+                if len(g_.generators) == 1 and not g_.generators[0].ifs and isinstance(e_, ast.Compare) and isinstance(e_.ops[0], ast.NotIn) \
+                        and norm(e_.left) == norm(g_.generators[0].target) and norm(it_) == "%s.resname_len_list" % top_p:
+                    tb_ = e_.comparators[0]
+                    tb_ = sd_.get(tb_.id, tb_) if isinstance(tb_, ast.Name) else tb_
+                    oksig = norm(tb_) == "self.system_gro.molecules_resname_len_index"
+                    sig = [n_]
     ctx.ob(rule, add, sig[0] if sig else "signature lookup", oksig,
            "a residue signature (name, atom count) of the topology that does not occur in the coordinate file refuses the topology",
            node=sig[0] if sig else add.node)
@@ -312,9 +329,28 @@ def _telescopes(gen: Func, ctx: Ctx, rule: str):
                 and norm(a) == "%s + %s * %s" % (norm(outer.target.elts[1]), i, nvar)
             ok = ok and bool(lens) and norm(k) == norm(outer.target.elts[0]) and norm(outer.iter) == "self._molecules_ordered"
             detail = "start=%s end=%s start[i+1]=%s count=%s" % (norm(a), norm(b), a_next, cnt)
-    ctx.ob(rule, gen, ys[0] if ys else "generator", ok,
-           "instance i of a block covers residues [start + i*n, start + (i+1)*n): consecutive, disjoint, as many as the "
-           "block's count, n = number of residues of the species (%s)" % detail, node=ys[0] if ys else gen.node)
+            if not ok and isinstance(a, ast.Name) and isinstance(b, ast.Name) and isinstance(outer.target, ast.Tuple) and lens:
+                # running form: a = start before the loop; each pass: b = a + n; yield (kind, a, b); a = b
+                body = inner.body
+                yi = [j for j, s_ in enumerate(body) if any(ys[0] is y for y in ast.walk(s_))]
+                pre = [s_ for s_ in body[:yi[0]]] if yi else []
+                post = [s_ for s_ in body[yi[0] + 1:]] if yi else []
+                ob = outer.body
+                init = [s_ for s_ in ob[:ob.index(inner)] if isinstance(s_, ast.Assign) and norm(s_.targets[0]) == a.id] if inner in ob else []
+                ok = bool(yi) and any(isinstance(s_, ast.Assign) and norm(s_.targets[0]) == b.id and norm(s_.value) in
+                                      ("%s + %s" % (a.id, nvar), "%s + %s" % (nvar, a.id)) for s_ in pre) \
+                    and len(post) == 1 and isinstance(post[0], ast.Assign) and norm(post[0].targets[0]) == a.id and norm(post[0].value) == b.id \
+                    and len(init) == 1 and norm(init[0].value) == norm(outer.target.elts[1]) \
+                    and cnt == norm(outer.target.elts[2]) and norm(k) == norm(outer.target.elts[0]) and norm(outer.iter) == "self._molecules_ordered" \
+                    and not any(isinstance(x, (ast.Continue, ast.Break)) for x in ast.walk(inner))
+                detail += " (running form)" if ok else ""
+    if ok or detail or not ys:
+        ctx.ob(rule, gen, ys[0] if ys else "generator", ok,
+               "instance i of a block covers residues [start + i*n, start + (i+1)*n): consecutive, disjoint, as many as the "
+               "block's count, n = number of residues of the species (%s)" % detail, node=ys[0] if ys else gen.node)
+    else:
+        ctx.ob(rule, gen, ys[0], True, "the instance offsets are not computed as start + i*n inside `for i in range(count)`; "
+               "not decided on this tree", undecided=True, node=ys[0])
 
 
 def r11_4(ctx: Ctx, rule="R11.4"):
@@ -365,11 +401,23 @@ def r11_4(ctx: Ctx, rule="R11.4"):
            "iteration and indexing enumerate instances with the same generator", node=gi.node)
     accessor_branches(ctx, rule, ("System.__getitem__", "SystemGro.__getitem__"))
     # counting accessors read the same block list
-    okl = phas(ln.node, "return sum((V_e[2] for V_e in self._molecules_ordered))")
-    ctx.ob(rule, ln, ln.node.body[-1], okl, "the length is the sum of the block counts", node=ln.node)
+    okl = phas(ln.node, "return sum((V_e[2] for V_e in self._molecules_ordered))") or \
+        phas(ln.node, "return sum((V_a for V_x, V_y, V_a in self._molecules_ordered))") or \
+        phas(ln.node, "return sum([V_e[2] for V_e in self._molecules_ordered])")
+    reads_blocks = any(attr_chain(x) == "self._molecules_ordered" for x in ast.walk(ln.node) if isinstance(x, ast.Attribute))
+    if okl or not reads_blocks:
+        ctx.ob(rule, ln, ln.node.body[-1], okl, "the length is the sum of the block counts", node=ln.node)
+    else:
+        ctx.ob(rule, ln, ln.node.body[-1], True, "the length reads the block list in a form that is not modelled; not decided on this tree",
+               undecided=True, node=ln.node)
     lp_ = pfind(comp.node, "for V_i, V_u, V_a in self._molecules_ordered: ...")
     okc = bool(lp_) and phas(lp_[0][0], "V_c[self.different_molecules[%s].name] += %s" % (lp_[0][1]["V_i"], lp_[0][1]["V_a"]))
-    ctx.ob(rule, comp, "composition", okc, "the composition adds each block's count to its species", node=comp.node)
+    reads_blocks_c = any(attr_chain(x) == "self._molecules_ordered" for x in ast.walk(comp.node) if isinstance(x, ast.Attribute))
+    if okc or not reads_blocks_c:
+        ctx.ob(rule, comp, "composition", okc, "the composition adds each block's count to its species", node=comp.node)
+    else:
+        ctx.ob(rule, comp, "composition", True, "the composition reads the block list in a form that is not modelled; not decided on this tree",
+               undecided=True, node=comp.node)
 
 
 def accessor_branches(ctx: Ctx, rule: str, names):
